@@ -14,6 +14,9 @@ pub enum BoxKind {
     /// widths near pi/2, pi, 2pi (+- a few ulps) and large trigonometric
     /// arguments with small widths
     TrigEdge,
+    /// moderately wide (1..12) boxes at moderate positions: several periods
+    /// of the trigonometric functions, poles of tan/recip inside
+    Wide,
     /// each variable draws its own kind (tame kinds only)
     MixedTame,
     /// each variable draws its own kind (all kinds)
@@ -88,7 +91,7 @@ fn one(rng: &mut Rng, k: BoxKind) -> (f32, f32) {
             use std::f32::consts::{FRAC_PI_2, PI, TAU};
             if rng.chance(0.5) {
                 let lo = rng.uniform(-8.0, 8.0) as f32;
-                let w = *rng.pick(&[FRAC_PI_2, PI, TAU, 3.0 * FRAC_PI_2]);
+                let w = *rng.pick(&[FRAC_PI_2, PI, PI, PI, TAU, 3.0 * FRAC_PI_2]);
                 let hi = crate::util::step_ulps(lo + w, rng.range(-3, 3) as i32);
                 if lo <= hi { (lo, hi) } else { (hi, lo) }
             } else {
@@ -97,6 +100,11 @@ fn one(rng: &mut Rng, k: BoxKind) -> (f32, f32) {
                 let hi = c + w;
                 if c <= hi { (c, hi) } else { (hi, c) }
             }
+        }
+        BoxKind::Wide => {
+            let lo = rng.uniform(-10.0, 10.0) as f32;
+            let w = rng.uniform(1.0, 12.0) as f32;
+            (lo, lo + w)
         }
         BoxKind::MixedTame => {
             let k = *rng.pick(&TAME_KINDS);
@@ -120,7 +128,9 @@ pub fn gen_box(rng: &mut Rng, n: usize, k: BoxKind) -> Vec<(f32, f32)> {
 }
 
 pub fn random_tame_kind(rng: &mut Rng) -> BoxKind {
-    if rng.chance(0.4) {
+    if rng.chance(0.12) {
+        BoxKind::Wide
+    } else if rng.chance(0.4) {
         BoxKind::MixedTame
     } else {
         *rng.pick(&TAME_KINDS)
